@@ -2,7 +2,7 @@
    "In every process" is represented by "for every oracle (= iteration order) at the modelled sites". *)
 From Coq Require Import String List Bool ZArith Permutation.
 Import ListNotations.
-Require Import V.Lib.PyStr V.Lib.JTree V.Det.Model V.Det.Proofs V.Det.Congr V.Det.Refs.
+Require Import V.Lib.PyStr V.Lib.JTree V.Det.Model V.Det.Proofs V.Det.Congr V.Det.Refs V.Det.Naming.
 Open Scope string_scope.
 Open Scope list_scope.
 
@@ -139,6 +139,18 @@ Proof.
 Qed.
 Print Assumptions C15_replace_separated.
 
+(* ---------------------------------------------------------------- S6: DSL 2 component / environment names *)
+(* The names given to the components (traversal of the workflows, de-duplication with roman
+   numerals, stage prefix) and to the environments (first use) by namespace_to_flowir are functions
+   of the document without any oracle, and they do not depend on the order in which the keys of the
+   mappings of the document are written: `steps` of every workflow (read by lookups only) and every
+   environment (hashed after sorting).  Lists (workflows, components, execute) are ordered data. *)
+Theorem C15_naming_invariant :
+  (forall d d', ns_rel d d' -> dsl_names d = dsl_names d') /\
+  (forall envs envs', Forall2 env_rel envs envs' -> env_names [] envs = env_names [] envs').
+Proof. split; [exact dsl_names_rel|]. intros envs envs' H. exact (env_names_rel envs envs' H []). Qed.
+Print Assumptions C15_naming_invariant.
+
 (* non-vacuity: three files a, b, c given as [a; b; c; a]; x is defined by all of them, y only by b.
    The hypotheses hold, the loader succeeds, x comes from a (the last one given), y from b; reversing
    every iteration order changes nothing; the memo buffer of a permuted dictionary is the same. *)
@@ -213,4 +225,37 @@ Proof.
     rewrite R, R' in T. apply T.
     + intros f _. pose proof C15_nonvacuous as NV. cbv zeta in NV. exact (proj1 NV f).
     + intros f _. exact (J f).
+Qed.
+
+(* non-vacuity of C15_naming_invariant: a namespace with a nested workflow used twice and repeated
+   step names, its steps mappings written in two key orders; three environments, two of them equal up
+   to key order and None values *)
+Definition ex_ns (flip : bool) : ns :=
+  let o (l : list (string * string)) := if flip then rev l else l in
+  mk_ns [mk_wf "main" (o [("sb", "inner"); ("sa", "echo"); ("stage1.sa", "inner")]) ["sa"; "sb"; "stage1.sa"];
+         mk_wf "inner" (o [("greet", "echo"); ("sa", "echo")]) ["greet"; "sa"]]
+        ["echo"] "main".
+
+Example C15_nonvacuous_naming :
+  ns_rel (ex_ns false) (ex_ns true) /\ ex_ns false <> ex_ns true /\
+  dsl_names (ex_ns true) =
+    Some [(["entry-instance"; "sa"], (0%N, "sa"));
+          (["entry-instance"; "sb"; "sa"], (0%N, "sa-I")); (["entry-instance"; "sb"; "greet"], (0%N, "greet"));
+          (["entry-instance"; "stage1.sa"; "sa"], (0%N, "sa-II")); (["entry-instance"; "stage1.sa"; "greet"], (0%N, "greet-I"))] /\
+  Forall2 env_rel [Some [("B", Some "1"); ("A", None)]; None; Some [("A", Some "x")]; Some [("A", Some "1")]]
+                  [Some [("A", None); ("B", Some "1")]; None; Some [("A", Some "x")]; Some [("A", Some "1")]] /\
+  env_names [] [Some [("B", Some "1"); ("A", None)]; None; Some [("A", Some "x")]; Some [("A", None); ("B", Some "1")]] =
+    [Some "env0"; None; Some "env1"; Some "env0"].
+Proof.
+  split; [|split; [discriminate|split; [vm_compute; reflexivity|split; [|vm_compute; reflexivity]]]].
+  - split; [|split; reflexivity]. cbn.
+    constructor; [|constructor; [|constructor]].
+    + split; [reflexivity|]. split; [reflexivity|]. split; [apply Permutation_rev|].
+      cbn. repeat constructor; cbn; intuition discriminate.
+    + split; [reflexivity|]. split; [reflexivity|]. split; [apply Permutation_rev|].
+      cbn. repeat constructor; cbn; intuition discriminate.
+  - constructor; [|constructor; [exact I|constructor; [|constructor; [|constructor]]]].
+    + split; [apply perm_swap|]. cbn. repeat constructor; cbn; intuition discriminate.
+    + split; [apply Permutation_refl|]. cbn. repeat constructor; cbn; tauto.
+    + split; [apply Permutation_refl|]. cbn. repeat constructor; cbn; tauto.
 Qed.
